@@ -51,6 +51,28 @@ pub trait NamingContext {
         }
     }
 
+    /// Compute the serialized name for an enum variant based on serde attributes
+    ///
+    /// Priority:
+    /// 1. Variant-level `#[serde(rename = "...")]` takes precedence
+    /// 2. Enum-level `#[serde(rename_all = "...")]` applies serde's rule for *variants*
+    ///    (which differs from the rule for fields: `InProgress` -> `in_progress`)
+    /// 3. Otherwise the variant keeps its Rust name, as serde serializes it
+    fn compute_variant_name(
+        &self,
+        variant_name: &str,
+        variant_rename: &Option<String>,
+        enum_rename_all: &Option<RenameRule>,
+    ) -> String {
+        if let Some(rename) = variant_rename {
+            rename.to_string()
+        } else if let Some(convention) = enum_rename_all {
+            convention.apply_to_variant(variant_name)
+        } else {
+            variant_name.to_string()
+        }
+    }
+
     /// Compute the serialized name for a parameter based on serde attributes
     ///
     /// Priority:
@@ -311,9 +333,14 @@ impl FieldContext {
     ) -> Self {
         let typescript_type = visitor.visit_type(&field.type_structure);
 
-        // Compute serialized name from serde attributes using NamingContext trait
-        let serialized_name =
-            self.compute_field_name(&field.name, &field.serde_rename, struct_rename_all);
+        // Compute serialized name from serde attributes using NamingContext trait.
+        // Enum variants (recorded with a rust_type of "enum_variant*") follow serde's
+        // variant rule, struct fields the field rule
+        let serialized_name = if field.rust_type.starts_with("enum_variant") {
+            self.compute_variant_name(&field.name, &field.serde_rename, struct_rename_all)
+        } else {
+            self.compute_field_name(&field.name, &field.serde_rename, struct_rename_all)
+        };
 
         self.name = field.name.clone();
         self.rust_type = field.rust_type.clone();
